@@ -20,6 +20,7 @@ FLOOR = {"quick": 8000, "thorough": 150000}
 REQUIRED_MONITORS = ("laws_notebook", "laws_generic", "symmetry_notebook", "symmetry_generic")
 ASSUMPTIONS = ["merge(b,X,X) may legitimately use 'either' decisions: only the conflict flag is judged",
                "merged notebooks are compared only when both runs are conflict-free (marker cells carry random ids)"]
+OPTIMIZED_SHARDS = (0,)
 NSHARDS = 16
 
 
